@@ -1007,5 +1007,5 @@ func c09R6(p *core.Program, r *core.Report) {
 		w := c09MayBeGlobal(p, recv, 0, map[ssa.Value]bool{}, map[*ssa.Function]bool{})
 		r.Check(w == "", "R6", key, p.Pos(cs.Pos()), "the marked value is produced for this evaluation", "SetDeprecated is applied to a value that may be the package-level "+w+": the mark is written without synchronisation into a value every session shares, and from then on every session that reads that value logs a deprecation warning")
 	}
-	r.Require("setdeprecated_sites", n, 5)
+	r.Require("setdeprecated_sites", n, 3)
 }
